@@ -43,7 +43,7 @@ def mk_param(d):
 
 class C20(Prop):
     id = 'C20'
-    theorems = ['C20.param_decl_is_def_plus_default', 'C20.decl_shape', 'C20.def_shape', 'C20.defSig_shape',
+    theorems = ['C20.checked_function', 'C20.refused_function', 'C20.checked_constructor', 'C20.param_decl_is_def_plus_default', 'C20.decl_shape', 'C20.def_shape', 'C20.defSig_shape',
                 'C20.def_ignores_decl_only_parts', 'C20.initialised_no_def',
                 'C20.constructor_def_ignores_decl_only_parts', 'C20.destructor_initialised_no_def',
                 'C20.namespace_balanced', 'C20.struct_balanced']
@@ -142,6 +142,24 @@ class C20(Prop):
             two.append({'op': 'cpp.blocks2', 'family': fam, 'a': a, 'b': b, 'extend': ext, 'how': rng.choice(['append', 'iadd', 'caller_ref'])})
         yield 'blocks', blocks
         yield 'blocks-built-without-contents', two
+        # descriptions at the edge of what the constructors accept: no name, `virtual` without an owner, a
+        # pure-specifier with every prefix, `= default/delete` next to a member initialiser list - refused with the
+        # library's error exactly when the specification calls them unrenderable, rendered otherwise
+        edge = []
+        for _ in range(n // 4):
+            edge.append({'op': 'cpp.function', 'checked': True, 'ret': gen_typedesc(rng, False),
+                         'name': rng.choice(NAMES + ['', '']),
+                         'params': [gen_param(rng) for _ in range(rng.randint(0, 2))],
+                         'prefix': rng.choice(['', 'virtual', 'static']),
+                         'cav': rng.choice(['', 'const']), 'override': rng.random() < 0.2,
+                         'init': rng.choice(['', '0', '0', '0 ', '00', 'default', 'delete', ' 0', 'O']),
+                         'contents': gen_contents(rng), 'scope': rng.choice([None, None, 'S']), 'late': 0})
+            init = rng.choice(['', 'default', 'delete', ' '])
+            edge.append({'op': 'cpp.constructor', 'checked': True, 'scope': rng.choice(['MyToaster', 'S']),
+                         'explicit': rng.random() < 0.3, 'params': [gen_param(rng) for _ in range(rng.randint(0, 2))],
+                         'init': init, 'mil': [rng.choice(['m_a(1)', '']) for _ in range(rng.randint(0, 2))],
+                         'contents': gen_contents(rng), 'late': 0})
+        yield 'edge-descriptions', edge
         yield 'misc', misc
 
     def impl(self, case):
@@ -169,6 +187,20 @@ class C20(Prop):
             prm = getattr(cpp_gen, fac)(fq(pd['type']['fqn']), pd['name'], pd['type']['default'])
             f = Function(cpp_gen.void_t(), case['name'], [prm])
             return {'decl': f.as_decl, 'def': f.as_def}
+        if case.get('checked'):
+            # the description as the user constructs it, refusal included
+            try:
+                if op == 'cpp.function':
+                    pf = {'': FunctionPrefix.MEMBER_FUNCTION, 'virtual': FunctionPrefix.VIRTUAL, 'static': FunctionPrefix.STATIC}[case['prefix']]
+                    f = Function(mk_typedesc(case['ret']), case['name'], [mk_param(p) for p in case['params']], pf,
+                                 case['cav'], case['override'], case['init'], case['contents'],
+                                 Struct(case['scope']) if case.get('scope') else None)
+                else:
+                    f = Constructor(Struct(case['scope']), case['explicit'], [mk_param(p) for p in case['params']],
+                                    case['init'], list(case['mil']), case['contents'])
+                return {'ok': {'decl': f.as_decl, 'def': f.as_def}}
+            except Exception as e:  # noqa
+                return {'err': err_tag(e)}
         if op == 'cpp.function':
             scope = Struct(case['scope']) if case.get('scope') else None
             pf = {'': FunctionPrefix.MEMBER_FUNCTION, 'virtual': FunctionPrefix.VIRTUAL, 'static': FunctionPrefix.STATIC}[case['prefix']]
